@@ -345,15 +345,19 @@ func (f *STFS) MkdirAll(path string, perm os.FileMode) error {
 	f.ioLock.Lock()
 	defer f.ioLock.Unlock()
 
-	parts := filepath.SplitList(path)
+	// Create every missing ancestor, starting at the root
+	parts := strings.Split(path, string(filepath.Separator))
 	currentPath := ""
+	if filepath.IsAbs(path) {
+		currentPath = string(filepath.Separator)
+	}
 
 	for _, part := range parts {
-		if currentPath == "" {
-			currentPath = part
-		} else {
-			currentPath = filepath.Join(currentPath, part)
+		if part == "" {
+			continue
 		}
+
+		currentPath = filepath.Join(currentPath, part)
 
 		if hdr, err := inventory.Stat(
 			f.metadata,
